@@ -127,6 +127,8 @@ pub enum PayloadKind {
     Reg,
     /// raw bytes under an encoding with header suffix "c" (`v4c.local.`)
     RawC,
+    /// Json<TypedClaims>: an application type with fields a generic JSON value cannot hold
+    Typed,
 }
 
 impl PayloadKind {
@@ -425,6 +427,7 @@ pub enum Claims {
     Json(serde_json::Value),
     Reg(RegSpec),
     RawC(Vec<u8>),
+    Typed(Box<TypedClaims>),
 }
 
 impl Claims {
@@ -435,6 +438,7 @@ impl Claims {
             Claims::Json(_) => PayloadKind::Json,
             Claims::Reg(_) => PayloadKind::Reg,
             Claims::RawC(_) => PayloadKind::RawC,
+            Claims::Typed(_) => PayloadKind::Typed,
         }
     }
 }
@@ -508,6 +512,11 @@ impl ClaimLeaves for RawC {
     }
 }
 impl ClaimLeaves for Json<serde_json::Value> {
+    fn leaf(_: &VSpec) -> Option<DynV<Self>> {
+        None
+    }
+}
+impl ClaimLeaves for Json<TypedClaims> {
     fn leaf(_: &VSpec) -> Option<DynV<Self>> {
         None
     }
@@ -789,6 +798,17 @@ impl PayloadIo for Json<serde_json::Value> {
         Claims::Json(self.0)
     }
 }
+impl PayloadIo for Json<TypedClaims> {
+    fn from_claims(c: &Claims) -> Result<Self, PasetoError> {
+        match c {
+            Claims::Typed(v) => Ok(Json((**v).clone())),
+            _ => harness_err("claims/payload kind mismatch"),
+        }
+    }
+    fn to_claims(self) -> Claims {
+        Claims::Typed(Box::new(self.0))
+    }
+}
 impl PayloadIo for RegisteredClaims {
     fn from_claims(c: &Claims) -> Result<Self, PasetoError> {
         match c {
@@ -871,6 +891,10 @@ macro_rules! by_payload {
             }
             PayloadKind::RawC => {
                 type $M = RawC;
+                $body
+            }
+            PayloadKind::Typed => {
+                type $M = Json<TypedClaims>;
                 $body
             }
         }
@@ -1646,6 +1670,136 @@ pub fn json_payload_encode(v: &serde_json::Value) -> Out<Vec<u8>> {
 
 pub fn json_payload_decode(bytes: &[u8]) -> Out<serde_json::Value> {
     guard(|| Ok(<Json<serde_json::Value> as paseto_core::encodings::Payload>::decode(bytes).map_err(PasetoError::PayloadError)?.0))
+}
+
+#[derive(Serialize, Deserialize, Clone, Debug, PartialEq)]
+pub enum TypedChoice {
+    Unit,
+    Newtype(u128),
+    Tuple(i128, bool),
+    Struct { wide: u128, label: String },
+}
+
+/// An application's claims type: what serde_json writes for it directly is the wire form.
+#[derive(Serialize, Deserialize, Clone, Debug, PartialEq)]
+pub struct TypedClaims {
+    pub serial: u128,
+    pub balance: i128,
+    pub count: u64,
+    pub offset: i64,
+    pub small: u8,
+    pub ratio: f64,
+    pub single: f32,
+    pub flag: bool,
+    pub letter: char,
+    pub name: String,
+    pub maybe: Option<u128>,
+    pub nothing: Option<String>,
+    pub unit: (),
+    pub pair: (u8, String, i128),
+    pub choice: TypedChoice,
+    pub list: Vec<u128>,
+    pub table: std::collections::BTreeMap<String, i128>,
+    pub unordered: std::collections::HashMap<String, u64>,
+    #[serde(rename = "zz-renamed")]
+    pub renamed: u32,
+    #[serde(skip_serializing_if = "Option::is_none", default)]
+    pub skipped: Option<u8>,
+    pub child: Option<Box<TypedClaims>>,
+}
+
+impl TypedClaims {
+    /// `tame`: only floats whose shortest decimal form every JSON reader converts back exactly
+    pub fn from_seed(seed: u64, depth: u32, tame: bool) -> TypedClaims {
+        let mut r = crate::prng::Rng::new(seed);
+        let wide = |r: &mut crate::prng::Rng| -> u128 {
+            match r.below(6) {
+                0 => u128::MAX,
+                1 => u64::MAX as u128 + 1,
+                2 => u64::MAX as u128,
+                3 => r.below(1000) as u128,
+                _ => ((r.next_u64() as u128) << 64) | r.next_u64() as u128,
+            }
+        };
+        let signed = |r: &mut crate::prng::Rng| -> i128 {
+            match r.below(7) {
+                0 => i128::MIN,
+                1 => i128::MAX,
+                2 => i64::MIN as i128 - 1,
+                3 => i64::MIN as i128,
+                4 => -(r.below(1000) as i128),
+                5 => u64::MAX as i128 + 1,
+                _ => (((r.next_u64() as u128) << 64) | r.next_u64() as u128) as i128,
+            }
+        };
+        let floats: &[f64] = if tame { &[0.0, 1.5, 1.10, 1e21, 1e-7, 123456789.125, -2.5e-10] } else { &[0.0, -0.0, 1.10, 1e21, 1e-7, 0.1 + 0.2, f64::MAX, f64::MIN_POSITIVE, 5e-324, 123456789.125, -2.5e-10] };
+        let singles: &[f32] = if tame { &[0.0, 0.1, 1.1, 3.4e-5, -7.25] } else { &[0.0, 0.1, 1.1, 16777217.0, f32::MAX, f32::MIN_POSITIVE, 3.4e-5, -7.25] };
+        let s = |r: &mut crate::prng::Rng| -> String {
+            let pool = ["", "a", "k\"ey", "line\nbreak", "\u{e9}\u{20ac}\u{1f600}", "\u{0}\u{1f}", "exp", "zz", "a/b\\c"];
+            pool[r.usize_below(pool.len())].to_string()
+        };
+        let choice = match r.below(4) {
+            0 => TypedChoice::Unit,
+            1 => TypedChoice::Newtype(wide(&mut r)),
+            2 => TypedChoice::Tuple(signed(&mut r), r.bool()),
+            _ => TypedChoice::Struct { wide: wide(&mut r), label: s(&mut r) },
+        };
+        let n_list = r.usize_below(4);
+        let n_table = r.usize_below(4);
+        let n_un = r.usize_below(6);
+        TypedClaims {
+            serial: wide(&mut r),
+            balance: signed(&mut r),
+            count: if r.bool() { u64::MAX } else { r.next_u64() },
+            offset: if r.bool() { i64::MIN } else { r.next_u64() as i64 },
+            small: r.below(256) as u8,
+            ratio: floats[r.usize_below(floats.len())],
+            single: singles[r.usize_below(singles.len())],
+            flag: r.bool(),
+            letter: ['a', '"', '\u{0}', '\u{e9}', '\u{1f600}', '\\'][r.usize_below(6)],
+            name: s(&mut r),
+            maybe: if r.bool() { Some(wide(&mut r)) } else { None },
+            nothing: None,
+            unit: (),
+            pair: (r.below(256) as u8, s(&mut r), signed(&mut r)),
+            choice,
+            list: (0..n_list).map(|_| wide(&mut r)).collect(),
+            table: (0..n_table).map(|i| (format!("{}{i}", s(&mut r)), signed(&mut r))).collect(),
+            unordered: (0..n_un).map(|i| (format!("u{i}-{}", r.below(100)), r.next_u64())).collect(),
+            renamed: r.below(1 << 31) as u32,
+            skipped: if r.bool() { Some(r.below(256) as u8) } else { None },
+            child: if depth > 0 && r.bool() { Some(Box::new(TypedClaims::from_seed(r.next_u64(), depth - 1, tame))) } else { None },
+        }
+    }
+}
+
+/// (payload encoding, footer encoding, payload decoded from `wire`, footer decoded from `wire`)
+#[allow(clippy::type_complexity)]
+pub fn json_typed(v: &TypedClaims, wire: &[u8]) -> Out<(Vec<u8>, Vec<u8>, Result<TypedClaims, String>, Result<TypedClaims, String>)> {
+    guard(|| {
+        let mut p = Vec::new();
+        paseto_core::encodings::Payload::encode(Json(v.clone()), &mut p).map_err(PasetoError::PayloadError)?;
+        let mut f = Vec::new();
+        paseto_core::encodings::Footer::encode(&Json(v.clone()), &mut f).map_err(PasetoError::PayloadError)?;
+        let dp = <Json<TypedClaims> as paseto_core::encodings::Payload>::decode(wire).map(|j| j.0).map_err(|e| e.to_string());
+        let df = <Json<TypedClaims> as paseto_core::encodings::Footer>::decode(wire).map(|j| j.0).map_err(|e| e.to_string());
+        Ok((p, f, dp, df))
+    })
+}
+
+/// Json<Box<RawValue>>: (payload encoding, footer encoding, text decoded as payload, text decoded as footer)
+#[allow(clippy::type_complexity)]
+pub fn json_raw_text(text: &str) -> Out<(Vec<u8>, Vec<u8>, Result<String, String>, Result<String, String>)> {
+    guard(|| {
+        let raw = serde_json::value::RawValue::from_string(text.to_string()).map_err(|e| PasetoError::PayloadError(Box::new(e)))?;
+        let mut p = Vec::new();
+        paseto_core::encodings::Payload::encode(Json(raw.clone()), &mut p).map_err(PasetoError::PayloadError)?;
+        let mut f = Vec::new();
+        paseto_core::encodings::Footer::encode(&Json(raw), &mut f).map_err(PasetoError::PayloadError)?;
+        let dp = <Json<Box<serde_json::value::RawValue>> as paseto_core::encodings::Payload>::decode(text.as_bytes()).map(|j| j.0.get().to_string()).map_err(|e| e.to_string());
+        let df = <Json<Box<serde_json::value::RawValue>> as paseto_core::encodings::Footer>::decode(text.as_bytes()).map(|j| j.0.get().to_string()).map_err(|e| e.to_string());
+        Ok((p, f, dp, df))
+    })
 }
 
 pub fn json_footer_encode(v: &serde_json::Value) -> Out<Vec<u8>> {
